@@ -76,7 +76,13 @@ def slotted(  # noqa: C901
             ) from None
 
         _stack.add(key)
+        try:
+            return _wrap(cls)
+        finally:
+            # Always release the guard, also when building the slotted class fails.
+            _stack.discard(key)
 
+    def _wrap(cls):
         if (
             sys.version_info >= (3, 10) and constants.PKG_NAME not in cls.__module__
         ):  # pragma: no cover
@@ -84,7 +90,7 @@ def slotted(  # noqa: C901
                 f"You are using Python {sys.version}. "
                 "Python 3.10 introduced native support for slotted dataclasses. "
                 "This is the preferred method for adding slots.",
-                stacklevel=2,
+                stacklevel=3,
             )
 
         cls_dict = {**cls.__dict__}
@@ -119,7 +125,6 @@ def slotted(  # noqa: C901
         new_cls.__qualname__ = cls.__qualname__
         new_cls.__module__ = cls.__module__
 
-        _stack.clear()
         return new_cls
 
     return wrap if _cls is None else wrap(_cls)
